@@ -21,8 +21,19 @@ def canon(dump):
     return nodes, edges
 
 
+def extra_vars(task, net):
+    if task["params"].get("cfg"):
+        return hist.declare_config(fields={"cfg_motifs": "max_motifs_per_node"})
+    return [], []
+
+
 def execute(rules, skeleton, H, names, params):
-    sd, trace = hist.run_history(rules, skeleton, H, names)
+    cfg = None
+    if params.get("cfg"):
+        cfg = hist.read_config(H, isinstance(H, hist.SymH), fields={"cfg_motifs": "max_motifs_per_node"})
+    sd, trace = hist.run_history(rules, skeleton, H, names, config=cfg)
+    if cfg is not None:
+        sd.config["max_motifs_per_node"] = 100_000      # the continuation runs with the limit relaxed
     sd, rec = ops.apply_op(sd, {"op": "bfs"}, names)
     final = ops.dump_sd(sd, names, attractors=False)
     from biobalm import SuccessionDiagram
@@ -36,7 +47,7 @@ def assertion(B, rules, skeleton, out, params):
     parts = []
     for k, ent in enumerate(out["trace"]):
         rec = ent["rec"]
-        ok_exc = rec["exc"] is None
+        ok_exc = rec["exc"] is None or (params.get("cfg") and rec["exc"] == "RuntimeError" and "maximum amount of stable motifs" in (rec.get("msg") or ""))
         parts.append((f"op {k} {ent['kind']}: no unexpected exception ({rec.get('exc')}: {rec.get('msg')})", B.const(ok_exc)))
         parts += [(f"after op {k} {ent['kind']}: " + l, f) for l, f in specs.partial_diagram_spec(B, ent["dump"])]
     parts.append(("final unrestricted expand_bfs completes", B.const(out["final_rec"]["exc"] is None and out["final_rec"]["ret"] is True)))
@@ -75,6 +86,13 @@ def tasks(tier, seed, selftest=False):
             S.append(dict(family="D3", skeleton=sk, timebox=60))
         for sk in PLAIN:
             S.append(dict(family="U3", skeleton=(sk,), timebox=300, cube_k=4, nbits=24))
+    # a small (symbolic) max_motifs_per_node: a call may raise the documented limit error, but may never leave a node
+    # expanded with a truncated successor list
+    for sk in PLAIN:
+        S.append(dict(family="U2", skeleton=(sk,), timebox=8 if tier == "quick" else 600, tag="cfg", params={"cfg": True}))
+        S.append(dict(family="D3", skeleton=(sk,), timebox=8 if tier == "quick" else 600, tag="cfg", params={"cfg": True}))
+    if tier == "thorough":
+        pass
     else:
         for sk in PLAIN:
             S.append(dict(family="D3", skeleton=(sk,), timebox=25))
